@@ -1,8 +1,596 @@
-//! C12 — monitor not built yet.
+//! C12 — patch application is all-or-nothing, and exact when it succeeds.
+//!
+//! Generated workspaces (LF / CRLF, with/without final newline, empty, non-UTF-8, mixed EOL, nested
+//! and empty directories) and generated patch documents are applied through
+//! `rip_workspace::Workspace::apply_patch` and through the `apply_patch` builtin
+//! (`register_builtin_tools` + `ToolRunner::run`) on two identical copies of the workspace. The
+//! whole tree (path -> bytes, `.rip/` excluded) is captured before and after.
+//!
+//! Oracle: on error after == before (file set and bytes; new empty directories are counted, not
+//! judged). On success of a *constructively* generated patch (hunks cut from the real file, single
+//! EOL style, non-empty files, clean relative paths) after == the reference applier's tree and
+//! `changed_files` == sorted set of named paths (incl. move targets). Everything else (planted
+//! failing ops at every index of 1–6-op sequences, mutated documents) is judged on atomicity only.
+
+#[path = "gen_patch.rs"]
+pub mod gen_patch;
+
+use crate::fixture::{runtime, scratch_root, tree_bytes};
+use crate::prng::{fnv_str, Rng};
 use crate::report::{Cfg, Report};
+use gen_patch::*;
+use rip_kernel::EventKind;
+use rip_tools::{register_builtin_tools, BuiltinToolConfig, ToolInvocation, ToolRegistry, ToolRunner};
+use serde_json::{json, Value};
+use std::collections::{BTreeMap, BTreeSet};
+use std::path::{Path, PathBuf};
+use std::sync::Arc;
+
+const DIRECTED: u64 = 9;
 
 pub fn run(cfg: &Cfg) -> i32 {
-    let mut r = Report::new("C12", "exploration", "not built");
-    r.fatal_inconclusive("monitor not built yet");
+    let mut r = Report::new(
+        "C12",
+        "exploration",
+        "seeded workspaces x patch documents of 1-6 ops: (a) constructive (every op generated against the evolving \
+         reference state, hunks cut from the real file) judged for exactness + changed_files, (b) a failing op of \
+         each of 21 kinds planted at every index i of n ops (earlier ops touch the same and other paths; ENOTDIR / \
+         EISDIR / ENAMETOOLONG I/O failures), (c) document-level mutations (truncation, missing header/footer, early \
+         footer, garbage) judged on atomicity; each applied through Workspace::apply_patch and the apply_patch tool; \
+         distinct = hash of (op kinds, planted kind@index, file styles touched, outcome); non-trivial = the patch \
+         reached the applier (parsed) or was rejected after earlier ops had mutated the tree",
+    );
+    r.assume("exactness is asserted only for constructively generated patches; all other inputs are judged on atomicity");
+    r.assume("tree comparison is over regular files (path -> bytes), .rip/ excluded; empty directories left behind are counted only");
+    r.assume("no permission faults (harness runs as root); I/O failures induced via ENOTDIR / EISDIR / ENAMETOOLONG");
+    let rt = runtime(2);
+    let base = scratch_root().join(format!("c12-{}", cfg.shard.0));
+    let _ = std::fs::create_dir_all(&base);
+
+    if let Some(path) = &cfg.replay {
+        let (seed, case) = read_replay(path, cfg.seed);
+        let mut c2 = cfg.clone();
+        c2.seed = seed;
+        one_case(&c2, &mut r, &rt, &base, case);
+        let _ = std::fs::remove_dir_all(&base);
+        return r.finish(&c2);
+    }
+
+    let max_cases = cfg.tier.pick(30_000u64, 100_000_000u64);
+    let mut case = 0u64;
+    while case < max_cases && !r.over(cfg) {
+        let idx = case;
+        case += 1;
+        // directed cases run in every shard-0 (and un-sharded) run so known findings always manifest
+        if idx < DIRECTED {
+            if cfg.shard.0 != 0 {
+                continue;
+            }
+        } else if !cfg.mine(idx) {
+            continue;
+        }
+        one_case(cfg, &mut r, &rt, &base, idx);
+    }
+    let _ = std::fs::remove_dir_all(&base);
     r.finish(cfg)
 }
+
+pub fn read_replay(path: &Path, default_seed: u64) -> (u64, u64) {
+    let v: Value = std::fs::read(path).ok().and_then(|b| serde_json::from_slice(&b).ok()).unwrap_or(Value::Null);
+    let seed = v.get("seed").and_then(|x| x.as_u64()).unwrap_or(default_seed);
+    let case = v.pointer("/witness/case").and_then(|x| x.as_u64()).unwrap_or(0);
+    (seed, case)
+}
+
+struct Case {
+    ws: WsModel,
+    text: String,
+    /// Some(reference outcome) when the patch is constructive (exactness judged)
+    expect: Option<(WsModel, Vec<String>)>,
+    class: String,
+    shape: String,
+    planted: Option<(String, usize, usize)>,
+    reference: String,
+    /// the document adds a file whose content is exactly one empty line
+    single_empty_add: bool,
+}
+
+fn directed_case(idx: u64) -> Case {
+    let mut ws = WsModel::default();
+    ws.put("keep.txt", b"keep\n".to_vec());
+    ws.put("p", b"precious\n".to_vec());
+    ws.put("src/a.txt", b"one\r\ntwo\r\nthree".to_vec());
+    ws.put("bin.dat", vec![0xff, 0xfe, 0x00, 0x0a]);
+    let (body, class): (&str, &str) = match idx {
+        // delete a file, create a directory in its place, then fail
+        0 => ("*** Delete File: p\n*** Add File: p/child.txt\n+x\n*** Delete File: missing.txt", "directed/delete_then_add_under_then_fail"),
+        // move a file away, create a directory in its place, then fail
+        1 => (
+            "*** Update File: p\n*** Move to: q\n@@\n-precious\n+moved\n*** Add File: p/child.txt\n+x\n*** Update File: nope.txt\n@@\n-a\n+b",
+            "directed/move_then_add_under_then_fail",
+        ),
+        // the repo's own atomicity literal, plus a same-path prefix
+        2 => ("*** Add File: a.txt\n+one\n*** Update File: a.txt\n@@\n-one\n+two\n*** Update File: missing.txt\n@@\n-nope\n+ok", "directed/add_update_then_fail"),
+        // update succeeds, move target's parent is a file (ENOTDIR after the update was written)
+        3 => ("*** Update File: src/a.txt\n*** Move to: keep.txt/x\n@@\n-two\n+TWO", "directed/move_enotdir_after_update"),
+        // update + delete + add, then EISDIR
+        4 => ("*** Update File: src/a.txt\n@@\n one\n-two\n+2\n*** Delete File: bin.dat\n*** Add File: n/e/w.txt\n+w\n*** Delete File: src", "directed/eisdir_last"),
+        // name too long at the end
+        5 => ("*** Delete File: keep.txt\n*** Add File: keep.txt\n+again\n*** Add File: LONG\n+x", "directed/enametoolong_last"),
+        // truncated document after valid ops
+        6 => ("*** Delete File: keep.txt\n*** Update File: src/a.txt\n@@\n-one\n+1", "directed/truncated"),
+        // a file consisting of one empty line
+        8 => ("*** Add File: blank.txt\n+\n*** Delete File: bin.dat", "directed/add_single_empty_line"),
+        // constructive CRLF / no-final-newline update + move
+        _ => ("*** Update File: src/a.txt\n*** Move to: src/b.txt\n@@\n one\n-two\n+zwei\n+drei\n three\n*** Delete File: bin.dat", "directed/constructive_crlf_move"),
+    };
+    let body = body.replace("LONG", &"n".repeat(300));
+    let text = if idx == 6 {
+        format!("*** Begin Patch\n{body}\n")
+    } else {
+        format!("*** Begin Patch\n{body}\n*** End Patch")
+    };
+    let expect = if idx == 7 {
+        let mut m = ws.clone(); // (idx 7)
+        m.files.remove("src/a.txt");
+        m.files.remove("bin.dat");
+        m.put("src/b.txt", b"one\r\nzwei\r\ndrei\r\nthree".to_vec());
+        Some((m, vec!["bin.dat".to_string(), "src/a.txt".to_string(), "src/b.txt".to_string()]))
+    } else if idx == 8 {
+        let mut m = ws.clone();
+        m.files.remove("bin.dat");
+        m.put("blank.txt", b"\n".to_vec());
+        Some((m, vec!["bin.dat".to_string(), "blank.txt".to_string()]))
+    } else {
+        None
+    };
+    Case {
+        ws,
+        text,
+        expect,
+        class: class.to_string(),
+        shape: class.to_string(),
+        planted: None,
+        reference: "directed".into(),
+        single_empty_add: idx == 8,
+    }
+}
+
+fn gen_case(cfg: &Cfg, idx: u64) -> Case {
+    if idx < DIRECTED {
+        return directed_case(idx);
+    }
+    let mut rng = cfg.case_rng(idx);
+    let ws = gen_workspace(&mut rng);
+    let mut fresh = Fresh::new();
+    let mut serial = 1000u32;
+    let mut shape = Shape::default();
+    let n = 1 + rng.usize(6);
+    let mode = rng.below(100);
+    let crlf_doc = rng.chance(1, 8);
+    let trailing = rng.bool();
+
+    // constructive prefix/suffix builder
+    let mut state = ws.clone();
+    let mut touched: Vec<String> = Vec::new();
+    let mut ops: Vec<Op> = Vec::new();
+    let mut kinds: Vec<&'static str> = Vec::new();
+
+    if mode < 40 {
+        // (a) fully constructive
+        for _ in 0..n {
+            let op = gen_constructive_op(&mut rng, &state, &touched, &mut fresh, &mut serial, &mut shape);
+            match step(&state, &op) {
+                Some(next) => {
+                    state = next;
+                    touched.extend(op.named_paths());
+                    kinds.push(op.kind());
+                    ops.push(op);
+                }
+                None => break,
+            }
+        }
+        let doc = PatchDoc { ops };
+        let single_empty_add =
+            doc.ops.iter().any(|op| matches!(op, Op::Add { lines, .. } if lines.len() == 1 && lines[0].is_empty()));
+        let reference = ref_apply(&ws, &doc);
+        let (expect, refs) = match reference {
+            RefOutcome::Ok { model, changed } => (Some((model, changed)), "ok".to_string()),
+            RefOutcome::Fail { at, why } => (None, format!("fail@{at}: {why}")),
+            RefOutcome::Undocumented { at, why } => (None, format!("undocumented@{at}: {why}")),
+        };
+        let styles = styles_of(&ws, &touched);
+        let shape_s = format!(
+            "constructive|{}|rep={} crlf={} nofnl={} reuse={}|{}",
+            kinds.join(","),
+            shape.repeated_ctx,
+            shape.crlf_update,
+            shape.no_final_nl_update,
+            shape.same_path_reuse,
+            styles
+        );
+        return Case {
+            ws,
+            text: render(&doc, crlf_doc, trailing),
+            expect,
+            class: "constructive".into(),
+            shape: shape_s,
+            planted: None,
+            reference: refs,
+            single_empty_add,
+        };
+    }
+
+    if mode < 88 {
+        // (b) failing op planted at index i of n; i is enumerated by the case index so that every
+        // (n, i, kind) cell is visited
+        let i = (idx as usize / FAIL_KINDS.len()) % n;
+        let want = FAIL_KINDS[idx as usize % FAIL_KINDS.len()];
+        let mut planted_kind = "";
+        let swap_prefix = rng.chance(1, 10);
+        for k in 0..n {
+            if k == i {
+                if swap_prefix {
+                    // file -> directory swap before the failure (delete or move away, then add below)
+                    let files: Vec<String> = state.files.keys().cloned().collect();
+                    if let Some(p) = files.first().map(|_| rng.pick(&files).clone()) {
+                        let first = if rng.bool() || !updatable(&state).contains(&p) {
+                            Op::Delete { path: p.clone() }
+                        } else {
+                            let t = decode_text(&state.files[&p]).expect("text");
+                            let (hunks, _, _) = gen_hunks(&mut rng, &t.lines, &mut serial);
+                            Op::Update { path: p.clone(), move_to: Some(fresh.path(&mut rng, &state)), hunks }
+                        };
+                        if let Some(s1) = step(&state, &first) {
+                            let second = Op::Add { path: format!("{p}/under.txt"), lines: vec!["u".into()] };
+                            if let Some(s2) = step(&s1, &second) {
+                                state = s2;
+                                touched.extend(first.named_paths());
+                                touched.extend(second.named_paths());
+                                kinds.push("swap");
+                                ops.push(first);
+                                ops.push(second);
+                            }
+                        }
+                    }
+                }
+                let (op, kind) = gen_failing_op(&mut rng, want, &state, &touched, &mut fresh, &mut serial);
+                planted_kind = kind;
+                kinds.push("FAIL");
+                ops.push(op);
+                continue;
+            }
+            let op = gen_constructive_op(&mut rng, &state, &touched, &mut fresh, &mut serial, &mut shape);
+            if let Some(next) = step(&state, &op) {
+                state = next;
+                touched.extend(op.named_paths());
+                kinds.push(op.kind());
+                ops.push(op);
+            }
+        }
+        let doc = PatchDoc { ops };
+        let refs = match ref_apply(&ws, &doc) {
+            RefOutcome::Ok { .. } => "ok".to_string(),
+            RefOutcome::Fail { at, why } => format!("fail@{at}: {why}"),
+            RefOutcome::Undocumented { at, why } => format!("undocumented@{at}: {why}"),
+        };
+        let styles = styles_of(&ws, &touched);
+        return Case {
+            ws,
+            text: render(&doc, crlf_doc, trailing),
+            expect: None,
+            class: format!("planted/{planted_kind}"),
+            shape: format!("planted|{}|{planted_kind}@{i}/{n}|{styles}", kinds.join(",")),
+            planted: Some((planted_kind.to_string(), i, n)),
+            reference: refs,
+            single_empty_add: false,
+        };
+    }
+
+    // (c) document-level mutation of a constructive document
+    for _ in 0..n {
+        let op = gen_constructive_op(&mut rng, &state, &touched, &mut fresh, &mut serial, &mut shape);
+        if let Some(next) = step(&state, &op) {
+            state = next;
+            touched.extend(op.named_paths());
+            kinds.push(op.kind());
+            ops.push(op);
+        }
+    }
+    let doc = PatchDoc { ops };
+    let good = render(&doc, crlf_doc, trailing);
+    let lines: Vec<&str> = good.split('\n').collect();
+    let (text, mutation) = match rng.below(8) {
+        0 => {
+            // truncated at a line boundary
+            let keep = 1 + rng.usize(lines.len().max(2) - 1);
+            (lines[..keep.min(lines.len() - 1)].join("\n"), "truncated_lines")
+        }
+        1 => {
+            // truncated at a byte (char) boundary
+            let mut cut = rng.usize(good.len().max(1));
+            while !good.is_char_boundary(cut) {
+                cut -= 1;
+            }
+            (good[..cut].to_string(), "truncated_bytes")
+        }
+        2 => (lines[1..].join("\n"), "missing_begin"),
+        3 => (good.replacen("*** Begin Patch", "*** begin patch", 1), "lowercase_begin"),
+        4 => {
+            // early footer: the parser stops there, remaining text is ignored
+            let at = 1 + rng.usize(lines.len().max(2) - 1);
+            let mut l: Vec<String> = lines.iter().map(|s| s.to_string()).collect();
+            l.insert(at.min(l.len()), "*** End Patch".to_string());
+            (l.join("\n"), "early_footer")
+        }
+        5 => {
+            let at = 1 + rng.usize(lines.len().max(2) - 1);
+            let mut l: Vec<String> = lines.iter().map(|s| s.to_string()).collect();
+            l.insert(at.min(l.len()), rng.unicode(8).replace(['\n', '\r'], " "));
+            (l.join("\n"), "garbage_line")
+        }
+        6 => (format!("\n{good}"), "leading_blank_line"),
+        _ => (format!("{good}\n*** Begin Patch\n*** Delete File: {}\n*** End Patch", ws.files.keys().next().cloned().unwrap_or_default()), "second_document"),
+    };
+    let styles = styles_of(&ws, &touched);
+    Case {
+        ws,
+        text,
+        expect: None,
+        class: format!("mutated/{mutation}"),
+        shape: format!("mutated|{}|{mutation}|{styles}", kinds.join(",")),
+        planted: None,
+        reference: "n/a".into(),
+        single_empty_add: false,
+    }
+}
+
+fn styles_of(ws: &WsModel, touched: &[String]) -> String {
+    let mut s = BTreeSet::new();
+    for p in touched {
+        if let Some(b) = ws.files.get(p) {
+            let tag = if b.is_empty() {
+                "empty"
+            } else {
+                match decode_text(b) {
+                    None => "bin",
+                    Some(t) if !t.single_style => "mixed",
+                    Some(t) => match (t.crlf, t.final_nl) {
+                        (false, true) => "lf+nl",
+                        (false, false) => "lf-nl",
+                        (true, true) => "crlf+nl",
+                        (true, false) => "crlf-nl",
+                    },
+                }
+            };
+            s.insert(tag);
+        }
+    }
+    s.into_iter().collect::<Vec<_>>().join("+")
+}
+
+struct Applied {
+    ok: bool,
+    changed: Option<Vec<String>>,
+    error: String,
+    panicked: bool,
+}
+
+fn apply_direct(root: &Path, text: &str) -> Applied {
+    let root = root.to_path_buf();
+    let text = text.to_string();
+    let res = std::panic::catch_unwind(move || {
+        let ws = rip_workspace::Workspace::new(&root).map_err(|e| format!("workspace: {e}"))?;
+        ws.apply_patch(&text).map(|r| r.changed_files).map_err(|e| format!("{:?}: {e}", e.kind()))
+    });
+    match res {
+        Ok(Ok(changed)) => Applied { ok: true, changed: Some(changed), error: String::new(), panicked: false },
+        Ok(Err(e)) => Applied { ok: false, changed: None, error: e, panicked: false },
+        Err(_) => Applied { ok: false, changed: None, error: "panic".into(), panicked: true },
+    }
+}
+
+fn apply_tool(rt: &tokio::runtime::Runtime, root: &Path, text: &str) -> Applied {
+    let registry = Arc::new(ToolRegistry::default());
+    register_builtin_tools(
+        &registry,
+        BuiltinToolConfig { workspace_root: root.to_path_buf(), ..BuiltinToolConfig::default() },
+    );
+    let runner = ToolRunner::new(registry, 2);
+    let mut seq = 0u64;
+    let events = rt.block_on(runner.run(
+        "c12",
+        &mut seq,
+        ToolInvocation { name: "apply_patch".into(), args: json!({"patch": text}), timeout_ms: None },
+    ));
+    let mut out = Applied { ok: false, changed: None, error: "no terminal frame".into(), panicked: false };
+    let mut stderr = Vec::new();
+    for e in &events {
+        match &e.kind {
+            EventKind::ToolStderr { chunk, .. } => stderr.push(chunk.clone()),
+            EventKind::ToolEnded { exit_code, artifacts, .. } => {
+                out.ok = *exit_code == 0;
+                out.error = format!("exit {exit_code}: {}", stderr.join(" | "));
+                out.panicked = stderr.iter().any(|s| s.contains("panicked"));
+                out.changed = artifacts
+                    .as_ref()
+                    .and_then(|a| a.get("changed_files"))
+                    .and_then(|c| c.as_array())
+                    .map(|a| a.iter().filter_map(|x| x.as_str().map(|s| s.to_string())).collect());
+            }
+            EventKind::ToolFailed { error, .. } => {
+                out.ok = false;
+                out.error = format!("tool_failed: {error}");
+            }
+            _ => {}
+        }
+    }
+    out
+}
+
+fn list_dirs(root: &Path) -> BTreeSet<String> {
+    crate::fixture::tree_manifest(root)
+        .into_iter()
+        .filter(|(p, (k, _, _))| *k == 'd' && p != ".rip" && !p.starts_with(".rip/"))
+        .map(|(p, _)| p)
+        .collect()
+}
+
+fn diff_class(before: &BTreeMap<String, Vec<u8>>, after: &BTreeMap<String, Vec<u8>>, root: &Path) -> Option<(String, String)> {
+    for (p, b) in before {
+        match after.get(p) {
+            None => {
+                let class = if root.join(p).is_dir() { "file_became_directory" } else { "file_missing" };
+                return Some((class.to_string(), p.clone()));
+            }
+            Some(a) if a != b => return Some(("bytes_changed".to_string(), p.clone())),
+            _ => {}
+        }
+    }
+    for p in after.keys() {
+        if !before.contains_key(p) {
+            return Some(("new_file_left".to_string(), p.clone()));
+        }
+    }
+    None
+}
+
+fn inexact_class(expect: &BTreeMap<String, Vec<u8>>, after: &BTreeMap<String, Vec<u8>>) -> Option<(String, String)> {
+    for (p, e) in expect {
+        match after.get(p) {
+            None => return Some(("file_set".into(), p.clone())),
+            Some(a) if a != e => {
+                let norm = |b: &[u8]| String::from_utf8_lossy(b).replace("\r\n", "\n");
+                let (na, ne) = (norm(a), norm(e));
+                let class = if na == ne {
+                    "line_ending"
+                } else if na.trim_end_matches('\n') == ne.trim_end_matches('\n') {
+                    "final_newline"
+                } else {
+                    "content"
+                };
+                return Some((class.into(), p.clone()));
+            }
+            _ => {}
+        }
+    }
+    for p in after.keys() {
+        if !expect.contains_key(p) {
+            return Some(("file_set".into(), p.clone()));
+        }
+    }
+    None
+}
+
+fn one_case(cfg: &Cfg, r: &mut Report, rt: &tokio::runtime::Runtime, base: &Path, idx: u64) {
+    let mut case = gen_case(cfg, idx);
+    let dir: PathBuf = base.join(format!("k{idx}"));
+    // absolute "escaping" paths point into this case's own scratch directory (never at files the harness does not own)
+    case.text = case.text.replace("/RV_C12_ABS", &dir.to_string_lossy());
+    let _ = std::fs::remove_dir_all(&dir);
+    let mut parsed_any = false;
+    let mut outcome_tag = String::new();
+    for driver in ["direct", "tool"] {
+        let root = dir.join(driver);
+        let _ = std::fs::create_dir_all(&root);
+        case.ws.materialize(&root);
+        let before = tree_bytes(&root, &[".rip"]);
+        let dirs_before = list_dirs(&root);
+        let applied = if driver == "direct" { apply_direct(&root, &case.text) } else { apply_tool(rt, &root, &case.text) };
+        let after = tree_bytes(&root, &[".rip"]);
+        let dirs_after = list_dirs(&root);
+        r.eval();
+        r.count(&format!("applied_{driver}"), 1);
+        r.count("bytes_compared", before.values().chain(after.values()).map(|b| b.len() as u64).sum());
+        r.count(if applied.ok { "outcome_ok" } else { "outcome_err" }, 1);
+        if applied.panicked {
+            r.count("panics_inside_apply", 1);
+        }
+        outcome_tag = if applied.ok { "ok".into() } else { "err".into() };
+        let witness = |extra: Value| {
+            json!({
+                "case": idx, "driver": driver, "class": case.class, "patch": case.text,
+                "workspace": case.ws.describe(), "reported": {"ok": applied.ok, "error": applied.error, "changed_files": applied.changed},
+                "reference": case.reference, "detail": extra,
+            })
+        };
+        if !applied.ok {
+            // a parse error leaves nothing to undo; anything else reached the applier
+            let parse_err = applied.error.contains("missing '***")
+                || applied.error.contains("unexpected line")
+                || applied.error.contains("must start with")
+                || applied.error.contains("no hunks")
+                || applied.error.contains("prefix")
+                || applied.error.contains("empty patch line")
+                || applied.error.contains("not allowed")
+                || applied.error.contains("escapes")
+                || applied.error.contains("cannot be empty");
+            if !parse_err {
+                parsed_any = true;
+                r.count("rejected_by_applier_after_parse", 1);
+            } else {
+                r.count("rejected_by_parser", 1);
+            }
+            if let Some((class, path)) = diff_class(&before, &after, &root) {
+                r.violation(
+                    &format!("C12/not_atomic/{class}"),
+                    &format!(
+                        "apply_patch reported failure ({}) but the workspace changed: {class} at {path:?} [{}]",
+                        applied.error, case.class
+                    ),
+                    witness(json!({"path": path, "before": before.get(&path).map(|b| show_bytes(b)), "after": after.get(&path).map(|b| show_bytes(b))})),
+                );
+            }
+            let new_dirs = dirs_after.difference(&dirs_before).count() as u64;
+            if new_dirs > 0 {
+                r.count("empty_dirs_left_after_failed_patch", new_dirs);
+            }
+            if case.expect.is_some() {
+                r.count("constructive_patch_rejected_not_judged", 1);
+                if r.extra.get("constructive_rejected_example").is_none() {
+                    r.note("constructive_rejected_example", json!({"case": idx, "error": applied.error}));
+                }
+            }
+            if let Some((k, i, n)) = &case.planted {
+                r.count(&format!("planted_fail_n{n}_i{i}"), 1);
+                r.count(&format!("planted_kind_{k}"), 1);
+            }
+        } else {
+            parsed_any = true;
+            if let Some((model, changed)) = &case.expect {
+                r.count("exactness_checked", 1);
+                if let Some((class, path)) = inexact_class(&model.files, &after) {
+                    let class = if case.single_empty_add { "add_file_single_empty_line".to_string() } else { class };
+                    r.violation(
+                        &format!("C12/inexact/{class}"),
+                        &format!("patch succeeded but the workspace differs from performing its operations in order: {class} at {path:?}"),
+                        witness(json!({"path": path, "expected": model.files.get(&path).map(|b| show_bytes(b)), "after": after.get(&path).map(|b| show_bytes(b))})),
+                    );
+                }
+                if applied.changed.as_ref() != Some(changed) {
+                    r.violation(
+                        "C12/inexact/changed_files",
+                        "patch succeeded but changed_files is not the sorted set of named paths",
+                        witness(json!({"expected": changed})),
+                    );
+                }
+            } else {
+                r.count("success_outside_reference_domain_not_judged", 1);
+                if case.planted.is_some() {
+                    r.count("planted_failure_did_not_fail", 1);
+                }
+            }
+        }
+        let _ = std::fs::remove_dir_all(&root);
+    }
+    let _ = std::fs::remove_dir_all(&dir);
+    if parsed_any {
+        r.distinct(fnv_str(&format!("{}|{}", case.shape, outcome_tag)));
+    }
+    if idx >= DIRECTED && r.samples.len() < r.max_samples && parsed_any {
+        r.sample(json!({"case": idx, "class": case.class, "patch": case.text, "files": case.ws.files.keys().collect::<Vec<_>>(), "outcome": outcome_tag, "reference": case.reference}));
+    }
+}
+
+#[allow(dead_code)]
+fn _unused(_: &mut Rng) {}
